@@ -99,7 +99,9 @@ def _filter_by_matching_plaintiff_or_defendant_or_resolved_names(
 
     for citation, resource in resolved_full_cites:
         full_cite_values = {
-            value for value in citation.metadata.__dict__.values() if value
+            value
+            for key in ReferenceCitation.name_fields
+            if (value := getattr(citation.metadata, key, None))
         }
         if full_cite_values & reference_values:
             matches.append(resource)
